@@ -21,7 +21,8 @@ VARIABLES plug, contr, ifaces, alias, h, tl, lastObs
 
 Scopes == {"sx", "ct"}            \* signature_extensions, check_template
 Plugins == 1..NPlug
-Contracts == {1, 2}               \* 1 implements CanBeInvoked; 2 implements only custom interface 1
+Contracts == {1, 2, 3}            \* 1 implements CanBeInvoked; 2 implements only custom interface 1; 3 is ANOTHER object under the id of 1
+SameId(c) == IF c \in {1, 3} THEN {1, 3} ELSE {c}      \* the registry is keyed by contract id: the object added last is the active one
 Ifaces == {1, 2}                  \* custom interfaces that can be added / removed
 Aliases == {1, 2}
 Sources == {"macro_def_use", "macro_use_only", "alias1", "alias2", "plain"}
@@ -38,16 +39,16 @@ Calls == [f : {"add_plugin", "remove_plugin"}, s : Scopes, x : Plugins]
          \cup [f : {"compile", "assemble"}, s : Sources, x : {0}]
 
 \* does contract c fulfil at least one interface in the registry r?
-Fulfils(c, r) == c = 1 \/ (c = 2 /\ 1 \in r.ifaces)
+Fulfils(c, r) == c \in {1, 3} \/ (c = 2 /\ 1 \in r.ifaces)
 
 \* next registry and the call's observable result
 Apply(r, c) ==
     CASE c.f = "add_plugin"    -> [reg |-> [r EXCEPT !.plug[c.s] = @ \cup {c.x}], res |-> "ok"]
       [] c.f = "remove_plugin" -> [reg |-> [r EXCEPT !.plug[c.s] = @ \ {c.x}], res |-> "ok"]
       [] c.f = "reset_plugins" -> [reg |-> [r EXCEPT !.plug[c.s] = {}], res |-> "ok"]
-      [] c.f = "add_contract"  -> IF Fulfils(c.x, r) THEN [reg |-> [r EXCEPT !.contr = @ \cup {c.x}], res |-> "ok"]
+      [] c.f = "add_contract"  -> IF Fulfils(c.x, r) THEN [reg |-> [r EXCEPT !.contr = (@ \ SameId(c.x)) \cup {c.x}], res |-> "ok"]
                                   ELSE [reg |-> r, res |-> "error"]
-      [] c.f = "remove_contract" -> [reg |-> [r EXCEPT !.contr = @ \ {c.x}], res |-> "ok"]
+      [] c.f = "remove_contract" -> [reg |-> [r EXCEPT !.contr = @ \ SameId(c.x)], res |-> "ok"]
       [] c.f = "add_iface"     -> [reg |-> [r EXCEPT !.ifaces = @ \cup {c.x}], res |-> "ok"]
       [] c.f = "remove_iface"  -> [reg |-> [r EXCEPT !.ifaces = @ \ {c.x}], res |-> "ok"]
       [] c.f = "add_alias"     -> IF c.x \in r.alias THEN [reg |-> r, res |-> "error"]
@@ -56,7 +57,7 @@ Apply(r, c) ==
       [] c.f = "run"           -> [reg |-> r, res |-> "ok"]
       \* an authorization run of several scripts: every script - not only the first - sees the active
       \* plugins and contracts; its last script invokes contract 1, so it authorizes iff contract 1 is active
-      [] c.f = "runauth"       -> [reg |-> r, res |-> IF 1 \in r.contr THEN "true" ELSE "false"]
+      [] c.f = "runauth"       -> [reg |-> r, res |-> IF r.contr \cap {1, 3} # {} THEN "true" ELSE "false"]
       \* compiling depends on the source and the aliases only: never on earlier compilations
       [] c.f \in {"compile", "assemble"} ->
             [reg |-> r, res |-> CASE c.s = "macro_use_only" -> "error"
